@@ -1,14 +1,23 @@
 #!/bin/sh
 # MANIFEST.setup_cmd: build the whole Coq development and every harness binary, offline.
-set -e
+# Every check rebuilds what it needs itself (make / cargo are incremental), so a failure of an
+# unrelated file here is reported but does not stop the set-up.
 cd "$(dirname "$0")/.."
-./tools/mkproject.sh
-timeout 7200 make -C coq -j16 >/dev/null 2>.build/setup_coq.log || { mkdir -p .build; tail -50 .build/setup_coq.log; echo "coq build failed"; exit 1; }
+mkdir -p .build
+./tools/mkproject.sh || exit 1
+timeout 7200 make -C coq -j16 -k >.build/setup_coq.log 2>&1 || { echo "WARNING: some Coq files did not build:"; grep -B2 -A6 "^Error" .build/setup_coq.log | head -60; }
 python3 - <<'PY'
-import sys, os
+import sys, os, glob
 sys.path.insert(0, "tools")
 import vlib
+bins = sorted(os.path.basename(p)[:-3] for p in glob.glob("harness/src/bin/*.rs"))
 rc, out, _ = vlib.build_harness([])
-sys.stdout.write(out[-2000:] if rc else "harness built\n")
-sys.exit(rc)
+if rc:
+    print("WARNING: building all harness binaries together failed; building them one by one")
+    for b in bins:
+        rc1, out1, _ = vlib.build_harness([b])
+        print(b, "ok" if rc1 == 0 else "FAILED\n" + out1[-1500:])
+else:
+    print("harness built:", " ".join(bins))
 PY
+exit 0
